@@ -40,7 +40,7 @@ def san_env(flavour):
     env["ASAN_OPTIONS"] = "halt_on_error=0:detect_leaks=0:abort_on_error=0:allocator_may_return_null=1:" \
                           "detect_container_overflow=1:max_malloc_fill_size=0:print_legend=0:" \
                           "handle_abort=1:detect_stack_use_after_return=0"
-    env["UBSAN_OPTIONS"] = "print_stacktrace=0:halt_on_error=0"
+    env["UBSAN_OPTIONS"] = "print_stacktrace=1:halt_on_error=0"
     env["TSAN_OPTIONS"] = "halt_on_error=0:report_signal_unsafe=0:second_deadlock_stack=0:history_size=4:" \
                           "atexit_sleep_ms=0"
     return env
